@@ -106,7 +106,7 @@ def handle (line : String) : String :=
           let n := chain.length
           let depth := 6
           let lastT := chains.getD (n - 1) emptyTree
-          let deleted := if req = "A" then [] else deletedFiles U reqF depth lastT
+          let deleted := if req = "A" then [] else deletedFiles U reqF depth (chains.take (n - 1)) lastT
           let views : List Tree := chains.mapIdx fun j t => if j + 1 = n then pruneFinal U reqF depth t else t
           let content : Path → Node → String := fun q nd =>
             if deleted.contains (nd.layer, q) then "readerr" else
